@@ -90,7 +90,7 @@ func (e *kvElection) validationLoop(ctx context.Context) {
 func (e *kvElection) handleValidationFailure(err error) {
 	log := e.getLogger()
 	log.Error("demoting_due_to_validation_failure",
-		append(e.logWithContext(e.ctx),
+		append(e.logWithContext(e.runContext()),
 			zap.Error(err),
 			zap.String("error_type", classifyErrorType(err)),
 		)...,
